@@ -38,6 +38,11 @@
 (*        whole number of COINS of the Value as smallest units             *)
 (*  value-arithmetic-float-off-by-one   Value + - * on whole amounts: the  *)
 (*        result is one unit off, only for results >= 10^15                *)
+(*  update-totals-reports-negative-fee   update_totals() of an ordinary     *)
+(*        transaction whose outputs exceed its known inputs sets the       *)
+(*        negative difference as fee                                       *)
+(*  negative-fee-argument-stored   Transaction(..., fee=<negative>) keeps  *)
+(*        that fee and skips the inputs-versus-outputs test                *)
 (*  parse-unit-read-as-currency-code   a unit that case-folds to a whole   *)
 (*        currency code (TBTC, TDOGE) is read as that currency with no     *)
 (*        denominator (or refused when a different network was supplied)   *)
@@ -153,6 +158,34 @@ JudgePlace(r) ==
 \* num/den: its exact value, den = 0 if it has none), ser: the 8 bytes raw() wrote (<<>> for Input), fee: the fee of a
 \* transaction built around it (whole: of an integer type, num: digits, neg).  r.other: the fixed amount on the other
 \* side of that transaction (input value for Output/add_output, output value for Input).
+\* r.route: how the fee came about; r.ins / r.outs: the whole amounts (digits) of the inputs and outputs; r.tys: the
+\* carrier types used; r.coinbase; r.got: refused (an exception anywhere on the route), nofee (fee is None), else the
+\* reported fee (isint: of an integer type, neg, num / den: its exact value)
+JudgeFee(r) ==
+  LET f == FeeOf(r.ins, r.outs)
+      g == r.got
+      documented == \A j \in 1..Len(r.tys) : r.tys[j] \in DocumentedCarriers
+      positive == f.pays /\ f.fee # <<>>
+      inputsKnown == SumBE(r.ins) # <<>>
+  IN
+  IF r.route = "calculate_fee" THEN
+       IF g.refused \/ (~g.nofee /\ g.isint /\ g.den = 1 /\ ~IsNeg(g.neg, g.num)) THEN Ok
+       ELSE Bad("calculated-fee-not-a-non-negative-integer", "", <<>>)
+  ELSE IF g.refused THEN
+       IF positive /\ documented THEN Bad("fee-paying-transaction-refused", "", f.fee) ELSE Ok
+  ELSE IF g.nofee THEN
+       IF positive /\ r.reports THEN Bad("fee-not-reported", "", f.fee) ELSE Ok
+  ELSE IF ~(g.isint /\ g.den = 1) THEN Bad("fee-not-an-integer", "", f.fee)
+  ELSE IF IsNeg(g.neg, g.num) THEN
+       Bad("fee-negative",
+           IF ~f.pays /\ ~r.coinbase /\ r.route \in {"add_update", "ctor_update", "parse_update"}
+              /\ Norm(g.num) = FeeOf(r.outs, r.ins).fee THEN "update-totals-reports-negative-fee"
+           ELSE IF ~f.pays /\ r.route = "fee_arg" /\ Norm(g.num) = FeeOf(r.outs, r.ins).fee THEN "negative-fee-argument-stored"
+           ELSE "", f.fee)
+  ELSE IF f.pays /\ Norm(g.num) = f.fee THEN Ok
+  ELSE IF r.coinbase /\ Norm(g.num) = <<>> THEN Ok
+  ELSE Bad("fee-differs-from-inputs-minus-outputs", "", f.fee)
+
 InApi(r) == r.api \in {"Input", "add_input"}
 JudgeTyped(r) ==
   LET whole == RatWhole(r.num, r.den)
@@ -215,6 +248,7 @@ Judge(r) ==
                      /\ r.den \in FloatFromSatDens THEN "from-satoshi-float-off-by-one" ELSE "", r.n)
     [] r.k = "place"  -> JudgePlace(r)
     [] r.k = "typed"  -> JudgeTyped(r)
+    [] r.k = "fee"    -> JudgeFee(r)
     [] r.k = "arith" ->  \* Value arithmetic on whole amounts: from_satoshi(a) (+|-) from_satoshi(b), from_satoshi(a) * m
          LET e == IF r.op = "add" THEN AddLE(Rev(r.a), Rev(r.b), 10)
                   ELSE IF r.op = "sub" THEN SubLE(Rev(r.a), Rev(r.b), 10)
